@@ -1,0 +1,11 @@
+//go:build verif
+
+package bpmn
+
+import "github.com/olive-io/bpmn/v2/pkg/data"
+
+// VerifLocatorJSONGet exposes locatorJSONGet (`$name.path` references of olive properties and
+// headers) to the verification harness of property C16. Built only with -tags verif.
+func VerifLocatorJSONGet(locator data.IFlowDataLocator, ref string) (any, bool) {
+	return locatorJSONGet(locator, ref)
+}
